@@ -281,7 +281,97 @@ func c11(c *evid.Ctx) {
 		}
 		n.Close()
 	}
+	c11bursts(c)
 	if c.Counter("get_peers replies with values") == 0 {
 		c.Inconclusive("no get_peers reply with values observed")
+	}
+}
+
+
+// c11bursts: many hosts announce for one infohash in a single burst (the server applies each
+// announce from its own goroutine), interleaved with get_peers; afterwards every announced endpoint
+// must be served.
+func c11bursts(c *evid.Ctx) {
+	r := c.R.Fork("bursts")
+	rounds := c.Scale(40, 1500)
+	for round := 0; round < rounds && c.NumViolations() < 20; round++ {
+		cs := &countingStore{inner: &peer_store.InMemory{}}
+		n, err := srv.New(dht.ServerConfig{NoSecurity: true, PeerStore: cs})
+		if err != nil {
+			c.Inconclusive(err.Error())
+			return
+		}
+		ih := r.ID()
+		B := r.Range(2, 64)
+		var alloc gen.AddrAlloc
+		type host struct {
+			src  *net.UDPAddr
+			tok  string
+			port int
+		}
+		hosts := make([]host, B)
+		var msgs [][]byte
+		var from []*net.UDPAddr
+		for i := range hosts {
+			if r.Intn(4) == 0 {
+				hosts[i].src = alloc.V6()
+			} else {
+				hosts[i].src = alloc.V4()
+			}
+			msgs = append(msgs, srv.Query("get_peers", "t", benc.Dict{"id": r.ID(), "info_hash": ih}))
+			from = append(from, hosts[i].src)
+		}
+		by, _, err := n.Exchange(nil, msgs, from)
+		if err != nil {
+			c.Inconclusive(err.Error())
+			n.Close()
+			return
+		}
+		msgs, from = nil, nil
+		for i := range hosts {
+			if rs := by[hosts[i].src.String()]; len(rs) == 1 {
+				hosts[i].tok, _ = benc.Str(rs[0].R(), "token")
+			}
+			hosts[i].port = r.Port()
+			msgs = append(msgs, srv.Query("announce_peer", "a", benc.Dict{"id": r.ID(), "info_hash": ih, "port": int64(hosts[i].port), "token": hosts[i].tok}))
+			from = append(from, hosts[i].src)
+			if i%5 == 0 {
+				msgs = append(msgs, srv.Query("get_peers", "g", benc.Dict{"id": r.ID(), "info_hash": ih, "want": benc.List{"n4", "n6"}}))
+				from = append(from, alloc.V4())
+			}
+		}
+		if _, _, err := n.Exchange(nil, msgs, from); err != nil {
+			c.Inconclusive(err.Error())
+			n.Close()
+			return
+		}
+		rs, err := n.Ask(srv.Query("get_peers", "f", benc.Dict{"id": r.ID(), "info_hash": ih, "want": benc.List{"n4", "n6"}}), alloc.V4())
+		c.Eval(1)
+		c.Count("announce bursts checked", 1)
+		c.Distinct(gen.Hash64("burst", B, round))
+		if err != nil || len(rs) != 1 {
+			c.Violation("get_peers-not-answered", fmt.Sprintf("after a burst of %d announces: %d replies", B, len(rs)), nil)
+			n.Close()
+			continue
+		}
+		vals, _ := benc.Lst(rs[0].R(), "values")
+		got := map[string]bool{}
+		for _, v := range vals {
+			if s, ok := v.(string); ok && len(s) >= 6 {
+				got[(&net.UDPAddr{IP: net.IP(s[:len(s)-2]), Port: int(s[len(s)-2])<<8 | int(s[len(s)-1])}).String()] = true
+			}
+		}
+		c.Count("get_peers replies with values", 1)
+		for _, h := range hosts {
+			want := (&net.UDPAddr{IP: h.src.IP, Port: h.port}).String()
+			if !got[want] {
+				c.Violation("current-endpoint-missing-from-get_peers:burst", fmt.Sprintf("%d hosts announced in one burst; %s is missing from the %d values returned afterwards", B, want, len(vals)), nil)
+				break
+			}
+		}
+		if len(got) > B {
+			c.Violation("returned-endpoint-never-announced:burst", fmt.Sprintf("%d distinct endpoints returned, %d announced", len(got), B), nil)
+		}
+		n.Close()
 	}
 }
